@@ -50,6 +50,22 @@ pub fn drive_block(t: &mut Tracer, tier: &str, seed: u64, plan: Option<String>) 
             let sess = format!("sm4/craft{}", hex::encode(key));
             if let Some(c) = new_cipher(t, &sess, key) { for (enc, b) in blocks { block_op(t, &sess, &c, *enc, "crafted", b); } }
         }
+        // CLONES of a cipher object (and a clone of the clone), used alongside the original, in both directions
+        for kq in 0..3 {
+            let key = rng.bytes(16);
+            let sess = format!("sm4/clone{}", kq);
+            if let Some(c) = new_cipher(t, &sess, &key) {
+                let c2 = c.clone();
+                let c3 = c2.clone();
+                let b = rng.bytes(16);
+                let e1 = block_op(t, &sess, &c2, true, "cloned", &b);
+                block_op(t, &sess, &c, false, "cloned", &e1);
+                block_op(t, &sess, &c2, false, "cloned", &e1);
+                block_op(t, &sess, &c3, false, "cloned", &e1);
+                block_op(t, &sess, &c3, true, "cloned", &b);
+                block_op(t, &sess, &c, true, "cloned", &b);
+            }
+        }
         // crafted keys: the key-schedule transform of one round receives 00000000 / FFFFFFFF
         for (n, line) in text.lines().enumerate() {
             let v: Value = serde_json::from_str(line).unwrap();
@@ -204,6 +220,25 @@ pub fn drive_modes(t: &mut Tracer, tier: &str, seed: u64) {
             let s = sess();
             if let Some(ct) = mode_event(t, &s, mode, true, &key, &iv, Some(&gg), &d) {
                 mode_event(t, &s, mode, false, &key, &iv, None, &ct);
+            }
+        }
+    }
+    // CONTENT that repeats: the final block equal to an earlier one, all blocks equal, data equal to the IV or to the key, a tail equal to the head -- a mode
+    // that recognises "the last block" or "the IV" by VALUE instead of by position goes wrong here (random data never repeats a block)
+    {
+        let (key, iv) = (rng.bytes(16), rng.bytes(16));
+        let (ra, rb) = (rng.bytes(16), rng.bytes(16));
+        let pats: Vec<Vec<u8>> = vec![vec![0u8; 64], vec![0u8; 32], [ra.clone(), rb.clone(), ra.clone()].concat(), [ra.clone(), ra.clone()].concat(), [ra.clone(), rb.clone(), rb.clone(), ra.clone(), rb.clone()].concat(),
+            [iv.clone(), iv.clone()].concat(), [key.clone(), iv.clone(), key.clone()].concat(), [ra.clone(), rb.clone(), ra[..7].to_vec()].concat(), [ra.clone(), ra.clone(), ra[..15].to_vec()].concat(), vec![0x10u8; 48], vec![0x80u8; 33]];
+        for (i, d) in pats.iter().enumerate() {
+            for (j, mode) in modes.iter().enumerate() {
+                if !thorough && (i + j) % 2 == 1 && *mode != "cfb" { continue; }
+                let s = sess();
+                if let Some(ct) = mode_event(t, &s, mode, true, &key, &iv, None, d) {
+                    mode_event(t, &s, mode, false, &key, &iv, None, &ct);
+                }
+                // the same pattern as a CIPHERTEXT to decrypt (CBC: only when block-aligned; the padding verdict is the specification's)
+                mode_event(t, &s, mode, false, &key, &iv, None, d);
             }
         }
     }
